@@ -698,3 +698,86 @@ func c10DialSilentPeer(w *W) {
 func init() {
 	register(&Scenario{Name: "dial-to-silent-peer", Prop: "C10", Horizon: time.Hour, Weight: 6, Run: c10DialSilentPeer})
 }
+
+// c10CloseDuringBurst: Close lands while connections are at every stage
+// between "accepted by the transport" and "attached": several peers connect in
+// a burst, the application's Attaching callback is slow (the accept loop is
+// away from Accept while it runs), and the socket or its listener is closed a
+// tape-chosen moment later. Every connection the transport accepted must be
+// closed at the library's end - also the ones whose handshake had completed
+// but which nobody had collected yet.
+func c10CloseDuringBurst(w *W) {
+	kind := []string{"pull", "bus", "sub", "rep", "pair", "star", "xrep", "respondent"}[w.Choose(simrt.SShape, 8)]
+	tran := w.simFallback([]string{"sim", "simipc", "tcp", "ipc", "tls+tcp", "ws", "wss"}[w.Choose(simrt.SShape, 7)])
+	npeers := 2 + w.Choose(simrt.SShape, 5)
+	what := []string{"socket", "listener"}[w.Choose(simrt.SShape, 2)]
+	slow := time.Duration(1+w.Choose(simrt.SShape, 8)) * time.Millisecond
+	after := time.Duration(w.Choose(simrt.SShape, 14)) * 500 * time.Microsecond
+	w.SetShape("kind", kind)
+	w.SetShape("tran", tran)
+	w.SetShape("peers", npeers)
+	w.SetShape("close", what)
+	nt := w.UseNet(NetCfg{Segment: w.Choose(simrt.SShape, 2) == 0})
+	s := w.Sock(kind)
+	s.SetPipeEventHook(func(ev mangos.PipeEvent, p mangos.Pipe) {
+		if ev == mangos.PipeEventAttaching {
+			simrt.Sleep(slow)
+		}
+	})
+	addr := w.Addr(tran)
+	l, err := s.NewListener(addr, w.EpOpts(addr, true, nil))
+	if err != nil || l.Listen() != nil {
+		w.Failf("HARNESS/listen", "%v", err)
+		return
+	}
+	var peers []mangos.Socket
+	for i := 0; i < npeers; i++ {
+		ps := w.Sock(peerKind[kind])
+		peers = append(peers, ps)
+		// (one attempt each: a peer that lost its connection must not come back)
+		_ = ps.DialOptions(addr, w.EpOpts(addr, false, map[string]interface{}{mangos.OptionDialAsynch: true, mangos.OptionReconnectTime: time.Hour, mangos.OptionMaxReconnectTime: time.Hour}))
+		if w.Choose(simrt.SProg, 3) == 0 {
+			w.Sleep(time.Duration(w.Choose(simrt.SProg, 4)) * 500 * time.Microsecond)
+		}
+	}
+	w.Sleep(after)
+	w.Op("%s over %s: %d peers connecting, Attaching callback takes %v; Close %s %v later", kind, tran, npeers, slow, what, after)
+	var cl *Call
+	if what == "socket" {
+		cl = w.Do("Socket.Close", func() (interface{}, error) { return nil, s.Close() })
+	} else {
+		cl = w.Do("Listener.Close", func() (interface{}, error) { return nil, l.Close() })
+	}
+	if !cl.Wait(2 * time.Second) {
+		if w.WedgeCheck("C10") {
+			return
+		}
+		w.Failf("C10/close-never-returns", "%s over %s: Close of the %s during a burst of connections has not returned after 2s%s", kind, tran, what, w.BlockedReport())
+		return
+	}
+	w.Sleep(time.Second)
+	w.Settle()
+	if what == "listener" {
+		s.Close()
+		w.Sleep(time.Second)
+		w.Settle()
+	}
+	w.NoHygiene = true
+	// the peers are still open: whatever the library accepted and then closed
+	// they have seen end; a connection still open now was left behind
+	if oc := nt.OpenConns(); len(oc) > 0 {
+		w.Failf("C10/connection-left-open", "%s over %s: %d peers connected in a burst while the Attaching callback was slow; the %s was closed %v later; 1-2s after that %d connection ends are still open: %v", kind, tran, npeers, what, after, len(oc), oc)
+		return
+	}
+	for _, ps := range peers {
+		ps.Close()
+	}
+	w.Sleep(5 * time.Second)
+	w.Settle()
+	w.Census("C10", append(peers, s)...)
+	w.Probe("close-during-connection-burst")
+}
+
+func init() {
+	register(&Scenario{Name: "close-during-connection-burst", Prop: "C10", Horizon: time.Hour, Weight: 60, Run: c10CloseDuringBurst})
+}
